@@ -25,9 +25,10 @@ def floors(tier):
 def generate(ctx):
     n = ctx.budget(15000, 900000)
     for _ in range(n):
-        case, meta = gen.gen_case(ctx.rng, percall=False)
+        case, meta = gen.gen_case(ctx.rng, percall=True)
         lv = meta["levels"]
         case["sel"], case["vals"] = "ranks", list(lv)
+        case.pop("vals_tags", None)
         nenc = 5 if ctx.tier == "quick" else 8
         encs = []
         styles = ctx.rng.sample(gen.ENC_STYLES, min(nenc, len(gen.ENC_STYLES)))
@@ -40,9 +41,10 @@ def generate(ctx):
             as_ = ctx.rng.choice(["ranks", "scores"])
             if as_ == "scores":
                 vals = [(-int(v) if isinstance(v, bool) else -v) for v in vals]
-            encs.append([as_, vals, st2])
+            plain, tags = gen.tag_vals(vals)
+            encs.append([as_, plain, st2, tags])
         if lv == list(range(len(lv))):
-            encs.append([None, None, "omitted"])
+            encs.append([None, None, "omitted", None])
         yield "enc", dict(case=case, meta=meta, encs=encs)
 
 
@@ -68,9 +70,10 @@ def probe_enc(ctx, payload):
         return
     common_buckets(ctx, base, meta)
     has_tie = meta["ties"] != "none"
-    for as_, vals, style in payload["encs"]:
+    for as_, vals, style, tags in payload["encs"]:
         c2 = dict(case)
         c2["sel"], c2["vals"] = as_, vals
+        c2["vals_tags"] = tags
         r2 = run_case(c2)
         has_float = bool(vals) and any(isinstance(v, float) for v in vals)
         reg = f"{meta['ties']}/{style}/{as_}"
